@@ -833,3 +833,32 @@ def path_agreement_rule(crate, prop):
             r.fail(prop, "decl-before-exportability export_to_string", "generate_decl (which calls T::decl(), panicking for non-exportable types) is not dominated by the success edge of generate_imports(..)?", es.file(), es.line())
     r.floor = 10
     return r
+
+
+def normaliser_rule(syn, prop, rule="C17.R7"):
+    """`..` may cancel a directory name; it may not cancel the root.  `/a/../../x` has no meaning below the root and C17 asks
+    for an error; popping the RootDir component instead leaves the relative path `x`, which export_to re-anchors at the cwd."""
+    from vlib import synlib as S
+    r = Result(rule, "in path::absolute the `..` arm removes the last component only when that component is a directory name (Component::Normal); at the root or a prefix it is an error, so a path that climbs above the root by any number of levels is rejected")
+    fn = syn.fn("export::path::absolute", "export/path.rs") or syn.fn("absolute", "export/path.rs")
+    if fn is None:
+        r.fail(prop, "anchor-missing path::absolute", "not found")
+        return r
+    pops = [e for e in S.events(fn, "mcall") if S.squash(e.get("method", "")) in ("pop", "truncate", "remove")]
+    n = 0
+    for e in pops:
+        in_parent = any(c["k"] == "match" and "ParentDir" in S.squash(c["pat"]) for c in e["ctx"])
+        if not in_parent:
+            continue
+        n += 1
+        guarded = any((c["k"] == "match" and "Normal" in S.squash(c["pat"])) or (c["k"] == "if" and "Normal" in S.squash(c.get("cond", "")) and c.get("branch", "then") == "then")
+                      for c in e["ctx"])
+        r.inst(fn=fn["qual"], where="%s:%s" % (fn["file"], e["line"]), pop_under_parent_dir=True, only_for_directory_names=guarded)
+        if not guarded:
+            r.fail(prop, "parent-dir-pops-root export::path::absolute",
+                   "`..` pops whatever component is last, the root included: with an output directory two levels deep, `#[ts(export_to = \"../../../x.ts\")]` normalises to the relative path `x.ts`; export_all_to returns Ok and the file is written under the working directory",
+                   fn["file"], e["line"])
+    if n == 0:
+        r.fail(prop, "anchor-missing parent-dir handling", "no component is removed for `..` in absolute()", fn["file"], fn["line"])
+    r.floor = 1
+    return r
